@@ -23,9 +23,6 @@ package telemetry
 //@ writers Config.Enabled serves C19: DefaultConfig, server.(*Server).Start
 
 // The collector keeps the configuration it was given.
-//@ func New serves C19
-//@   returns (c, err)
-//@   ensures err == nil && cfg != nil ==> c != nil && c.config == cfg && c.version == version
 
 // The report carries exactly the documented fields, and the identifying ones are the
 // collector's random instance id and the version string.
@@ -33,3 +30,22 @@ package telemetry
 //@ func (*Collector).collectPayload serves C19
 //@   requires c != nil
 //@   ensures result != nil && result.InstanceID == c.instanceID && result.LiftbridgeVersion == c.version
+
+// Where the report's data can come from: the collector holds no handle on server state, package
+// telemetry obtains data from outside the module only through the listed packages / functions
+// (no host name, no environment, no network interfaces ...), and the instance id is either the
+// content of the instance-id file or a freshly generated random UUID.
+//@ fieldtypes Collector serves C19: *telemetry.Config, string, time.Time, context.Context, context.CancelFunc, sync.WaitGroup, *http.Client, logger.Logger
+//@ callees telemetry serves C19: runtime, time, fmt, encoding/json, net/http, bytes, context, crypto/rand, path/filepath, sync, errors, io, os.MkdirAll, os.ReadFile, os.WriteFile
+//@ ghost var generatedID string
+//@ ghost var fileID string
+//@ func loadOrCreateInstanceID serves C19
+//@   returns (id, err)
+//@   ghost after call generateUUID: ghost.generatedID := ret0
+//@   ghost after call TrimSpace: ghost.fileID := str(ret0)
+//@   ensures [random-or-from-file] err == nil ==> id == ghost.generatedID || id == ghost.fileID
+//@ func New serves C19
+//@   returns (c, err)
+//@   ghost after call loadOrCreateInstanceID: ghost.generatedID := ret0
+//@   ensures [instance-id-source] err == nil ==> c.instanceID == ghost.generatedID
+//@   ensures [keeps-config] err == nil && cfg != nil ==> c != nil && c.config == cfg && c.version == version
